@@ -28,6 +28,9 @@ CHECKS["C17"] = ("model_checking", "bounded-exhaustive exploration of the real c
 CHECKS["C06"] = ("model_checking", "bounded-exhaustive exploration of the real code: every physically consistent schedule of N events over two one-shot keys and two plain keys with gaps from {0,1,T-1,T,T+1} for all four end-variants x timeouts x rapid-event-delay x body kinds, plus the complete stacking family n=1..20; checked against the OneShotSpec reference (set of acceptable modifier masks per plain key press)",
   "No explored schedule applies a one-shot to a key after its end point, fails to apply it to the first following key within the timeout, loses or reorders plain keys, or leaves anything held after settling. Exhaustive over the stated schedule space.",
   "timer boundaries within the processing skew branch into both readings", "DESIGN.md §4 C06")
+CHECKS["C13"] = ("model_checking", "exhaustive enumeration of override tables (all singles, all ordered pairs over a small key universe) x all active-key lists up to length 4 in every order through the real Overrides::override_keys against a reference substitution; plus bounded-exhaustive lock-step exploration of the full pipeline (all histories of D steps) against a pipeline model",
+  "The pure key-list transformation equals the reference on every (table, list) of the stated finite space; every explored pipeline execution equals the pipeline model event for event (per-tick), and nothing stays pressed after release.",
+  "4 of the 8 modifiers in the exhaustive part (all 8 in a thorough-tier mask sweep); intra-tick order not compared in the pipeline part", "DESIGN.md §4 C13")
 NOT_YET = {}
 props = [json.loads(l) for l in open('/verif/properties.jsonl')]
 hooks_commits = subprocess.run(["git","-C","/repo","log","--format=%h %s"],capture_output=True,text=True).stdout.splitlines()
